@@ -222,7 +222,9 @@ def run_chunk(chunk):
             for n in range(2, chunk['n'] + 1):
                 for sh, _ in model.shapes_with_unary(n, 1):
                     pool.extend(labelings(sh))
-            for sh in ((1, 2, 3, 4), ((1, 2, 3, 4), 5), ((1, 3, 4, 5), 2), ((1, 2, 3, 4, 5),), ((1, 2, 4, 5), 3)):
+            for sh in ((1, 2, 3, 4), ((1, 2, 3, 4), 5), ((1, 3, 4, 5), 2), ((1, 2, 3, 4, 5),), ((1, 2, 4, 5), 3),
+                       # the same rule below a continuous and below a discontinuous node of the same label
+                       (((1, 2), 4), 3), (((1, 2), 3), 4)):
                 pool.extend(list(labelings(sh))[:1])      # rank 4/5 rules, so that chains have intermediate rules
             pairs = list(itertools.product(range(len(pool)), repeat=2))
             bank = None
